@@ -12,7 +12,7 @@ import (
 func init() { register("C09", propC09) }
 
 func propC09(r *Report, tier string) {
-	r.Explanation = "Structural necessary conditions of 'an alias over shards equals one index': (a) K9b the per-member request built by copySearchRequest carries every field of SearchRequest (allow-list with reasons), asks each member for Size+From hits from offset 0, and gets its own copy of the sort; (b) K6 sort Copy() methods share no mutable scratch buffer with the original (members search concurrently); (c) K5 MultiSearch: the page is cut only after all members were merged, facets are fixed up after the merges, SearchBefore reverse/restore parity with the cut before and the re-sort after the restore; (d) K9b SearchResult.Merge accumulates Status, Hits, Total, Cost, MaxScore and Facets; FacetResult.Merge accumulates Total, Missing and Other unconditionally before any early return and merges all three bucket kinds; (e) hitsInCurrentPage sorts with the request's order before slicing From/Size."
+	r.Explanation = "Structural necessary conditions of 'an alias over shards equals one index': (a) K9b the per-member request built by copySearchRequest carries every field of SearchRequest (allow-list with reasons), asks each member for Size+From hits from offset 0, and gets its own copy of the sort; (b) K6 sort Copy() methods share no mutable scratch buffer with the original (members search concurrently); (c) K5 MultiSearch: the page is cut only after all members were merged, facets are fixed up after the merges, SearchBefore reverse/restore parity with the cut before and the re-sort after the restore; (d) K9b SearchResult.Merge accumulates Status, Hits, Total, Cost, MaxScore and Facets; FacetResult.Merge accumulates Total, Missing and Other unconditionally before any early return and merges all three bucket kinds; (e) hitsInCurrentPage sorts with the request's order before slicing From/Size. (f) the request handed to each member's goroutine is built by the copy function inside the same loop iteration (members share no request)."
 	r.NotCovered = "equality with the unsharded answer (needs contents); comparability of scores across shards; pre-search/KNN paths"
 	ruleCopySearchRequest(r, "K9b-member-request-carries-all")
 	ruleCopyIsolation(r, "K6-copy-isolation")
@@ -281,6 +281,68 @@ func ruleMultiSearchOrder(r *Report, rule string) {
 		r.Ob(rule, fi.Name+"/facet-fixup-after-merges", fx.Pos(), ok, "facet buckets are trimmed to the requested size only after all members' facets were merged")
 	}
 	// the merge loop receives from every member: the range over the result channel has no early exit besides errors
+	// members search concurrently and a request carries mutable scratch (the sort's buffers): what a goroutine
+	// started inside a loop receives as its request must be built by the copy function in that same iteration
+	isCopyCall := func(e ast.Expr) bool {
+		c, ok := ast.Unparen(e).(*ast.CallExpr)
+		if !ok {
+			return false
+		}
+		f := callee(info, c)
+		return f != nil && (f.Name() == "copySearchRequest" || f.Name() == "createChildSearchRequest")
+	}
+	nGo := 0
+	ast.Inspect(fi.Decl.Body, func(x ast.Node) bool {
+		gs, ok := x.(*ast.GoStmt)
+		if !ok {
+			return true
+		}
+		var loopBody *ast.BlockStmt
+		for _, anc := range enclosing(fi.Decl.Body, gs) {
+			switch l := anc.(type) {
+			case *ast.RangeStmt:
+				loopBody = l.Body
+			case *ast.ForStmt:
+				loopBody = l.Body
+			}
+		}
+		if loopBody == nil {
+			return true
+		}
+		for _, a := range gs.Call.Args {
+			pt, isPtr := info.TypeOf(a).(*types.Pointer)
+			if !isPtr {
+				continue
+			}
+			if nt := namedOf(pt.Elem()); nt == nil || nt.Obj().Name() != "SearchRequest" {
+				continue
+			}
+			nGo++
+			own := isCopyCall(a)
+			if id, isID := ast.Unparen(a).(*ast.Ident); isID {
+				o := info.ObjectOf(id)
+				defs, good := 0, 0
+				ast.Inspect(fi.Decl.Body, func(y ast.Node) bool {
+					as, ok := y.(*ast.AssignStmt)
+					if !ok || len(as.Lhs) != len(as.Rhs) {
+						return true
+					}
+					for k, l := range as.Lhs {
+						if objOf(info, l) == o {
+							defs++
+							if isCopyCall(as.Rhs[k]) && as.Pos() >= loopBody.Pos() && as.End() <= loopBody.End() {
+								good++
+							}
+						}
+					}
+					return true
+				})
+				own = defs > 0 && defs == good && declaredWithin(info, loopBody, o)
+			}
+			r.Ob(rule, fmt.Sprintf("%s/member-goroutine#%d-gets-its-own-request", fi.Name, nGo), gs.Pos(), own, "the request handed to a member's goroutine is not built by the copy function inside the same loop iteration: members searching concurrently then share one request and its sort's scratch buffers (data race, hits ordered by another member's values)")
+		}
+		return true
+	})
 	r.Ob(rule, fi.Name+"/member-requests-built-by-copySearchRequest", fi.Decl.Pos(), len(callsMatching(info, fi.Decl.Body, func(f *types.Func) bool { return f.Name() == "copySearchRequest" })) > 0 || len(callsMatching(info, fi.Decl.Body, func(f *types.Func) bool { return f.Name() == "createChildSearchRequest" })) > 0, "each member is queried with a request derived by copySearchRequest")
 }
 
@@ -385,8 +447,19 @@ func ruleHitsInCurrentPage(r *Report, rule string) {
 			if se.Low != nil && isField(info, se.Low, "SearchRequest", "From") {
 				fromSl = se
 			}
-			if se.High != nil && isField(info, se.High, "SearchRequest", "Size") {
-				sizeSl = se
+			if se.High != nil {
+				hi := ast.Unparen(resolveCopies(info, fi.Decl.Body, se.High))
+				if isField(info, hi, "SearchRequest", "Size") {
+					sizeSl = se
+				}
+				// min(len(hits), req.Size)
+				if c, isCall := hi.(*ast.CallExpr); isCall && calleeBuiltin(info, c) == "min" {
+					for _, a := range c.Args {
+						if isField(info, resolveCopies(info, fi.Decl.Body, a), "SearchRequest", "Size") {
+							sizeSl = se
+						}
+					}
+				}
 			}
 		}
 		return true
